@@ -193,8 +193,10 @@ func (x *Exec) assumeValid(st *State, v Val) {
 		switch u := v.GT.Underlying().(type) {
 		case *types.Pointer, *types.Map, *types.Signature, *types.Chan:
 			st.assume(mkAnd(app(sBool, "<=", intLit(0), v.T), app(sBool, "<", v.T, st.alloc)))
+			x.noteBound(st, v.T)
 		case *types.Interface:
 			st.assume(mkImplies(app(sBool, "(_ is iptr)", v.T), mkAnd(app(sBool, "<=", intLit(0), app(sInt, "iref", v.T)), app(sBool, "<", app(sInt, "iref", v.T), st.alloc))))
+			x.noteBound(st, irefOf(v.T))
 		case *types.Basic:
 			if isIntKind(u) && !x.bv {
 				switch u.Kind() {
@@ -215,6 +217,7 @@ func (x *Exec) assumeValid(st *State, v Val) {
 			}
 		}
 	case Sl:
+		x.noteBound(st, v.Base)
 		st.assume(mkAnd(
 			app(sBool, "<=", intLit(0), v.Base), app(sBool, "<", v.Base, st.alloc),
 			app(sBool, "<=", intLit(0), v.Off), app(sBool, "<=", intLit(0), v.Len), app(sBool, "<=", v.Len, v.Cap),
@@ -513,7 +516,21 @@ func (x *Exec) readLeaf(st *State, class string, idx []Term, sort string) Term {
 		cur := a
 		for {
 			info, ok := x.stores[cur.S]
-			if !ok || len(info.idx) != len(idx) {
+			if !ok {
+				break
+			}
+			if len(info.idx) == 1 && len(idx) == 2 {
+				// a whole inner array was stored at info.idx[0]
+				if info.idx[0].S == idx[0].S {
+					return mkSelect(info.val, idx[1])
+				}
+				if x.distinctRefs(info.idx[0], idx[0]) {
+					cur = info.prev
+					continue
+				}
+				break
+			}
+			if len(info.idx) != len(idx) {
 				break
 			}
 			if info.idx[0].S == idx[0].S {
@@ -531,7 +548,7 @@ func (x *Exec) readLeaf(st *State, class string, idx []Term, sort string) Term {
 				}
 				break
 			}
-			if x.freshRefs[info.idx[0].S] && x.freshRefs[idx[0].S] {
+			if x.distinctRefs(info.idx[0], idx[0]) {
 				cur = info.prev
 				continue
 			}
@@ -577,7 +594,9 @@ func (x *Exec) writeLeaf(st *State, class string, idx []Term, v Term) {
 func (x *Exec) load(st *State, p Ptr, t types.Type) Val {
 	switch u := t.Underlying().(type) {
 	case *types.Slice:
-		base := x.def(st, "ld", x.readLeaf(st, p.Prefix+"#base", p.Idx, sInt))
+		rawBase := x.readLeaf(st, p.Prefix+"#base", p.Idx, sInt)
+		base := x.def(st, "ld", rawBase)
+		x.noteEntryRead(rawBase, base)
 		if x.prog.specs.Owned[p.Prefix] {
 			x.own[base.S] = p.Prefix
 		}
@@ -599,10 +618,12 @@ func (x *Exec) load(st *State, p Ptr, t types.Type) Val {
 	if srt == sBV64 { // heap cells hold mathematical ints; no bridge in bv mode
 		fail("bv64 mode: integer load from heap (%s) unsupported", p.Prefix)
 	}
-	r := x.def(st, "ld", x.readLeaf(st, p.Prefix, p.Idx, srt))
+	raw := x.readLeaf(st, p.Prefix, p.Idx, srt)
+	r := x.def(st, "ld", raw)
 	if x.prog.specs.Owned[p.Prefix] {
 		x.own[r.S] = p.Prefix
 	}
+	x.noteEntryRead(raw, r)
 	return Sc{r, t}
 }
 
@@ -936,4 +957,119 @@ func irefOf(it Term) Term {
 		}
 	}
 	return app(sInt, "iref", it)
+}
+
+// noteBound remembers that term t was known to be allocated (t < alloc) when the allocation counter
+// had the given generation; objects created later are therefore different from t.
+func (x *Exec) noteBound(st *State, t Term) {
+	if st.noSide || st.inQuant > 0 || x.freshRefs[t.S] {
+		return
+	}
+	n := allocNum(st.alloc.S)
+	if old, ok := x.boundOf[t.S]; !ok || n < old {
+		x.boundOf[t.S] = n
+	}
+}
+
+func allocNum(s string) int {
+	i := strings.LastIndex(s, "!")
+	if i < 0 {
+		return 1 << 30
+	}
+	n := 0
+	for _, c := range s[i+1:] {
+		if c < '0' || c > '9' {
+			return 1 << 30
+		}
+		n = n*10 + int(c-'0')
+	}
+	return n
+}
+
+// noteEntryRead: a reference read from the heap as it was at function entry was allocated before the call
+// (heap closure), hence differs from every object this activation creates.
+func (x *Exec) noteEntryRead(raw, named Term) {
+	if named.Sort != sInt || !strings.HasPrefix(raw.S, "(select ") {
+		return
+	}
+	rest := raw.S[len("(select "):]
+	end := strings.IndexByte(rest, ' ')
+	if strings.HasPrefix(rest, "|") {
+		end = strings.IndexByte(rest[1:], '|') + 2
+	}
+	if end <= 0 || end > len(rest) {
+		return
+	}
+	cls := strings.Trim(rest[:end], "| ")
+	if strings.HasPrefix(cls, "H:") && strings.HasSuffix(cls, "@0") {
+		if old, ok := x.boundOf[named.S]; !ok || 1 < old {
+			x.boundOf[named.S] = 1
+		}
+		x.boundOf[raw.S] = 1
+	}
+}
+
+// distinctRefs: the two reference terms are known (syntactically / by allocation order) to differ.
+func (x *Exec) distinctRefs(a, b Term) bool {
+	if a.S == b.S {
+		return false
+	}
+	// a conditional reference (e.g. the base of an append result) is distinct if all its alternatives are
+	if al, ok := x.alts[a.S]; ok {
+		for _, t := range al {
+			if !x.distinctRefs(t, b) {
+				return false
+			}
+		}
+		return true
+	}
+	if al, ok := x.alts[b.S]; ok {
+		for _, t := range al {
+			if !x.distinctRefs(a, t) {
+				return false
+			}
+		}
+		return true
+	}
+	if x.freshRefs[a.S] && x.freshRefs[b.S] {
+		return true
+	}
+	if n, ok := x.boundOf[b.S]; ok && x.freshRefs[a.S] && n <= allocNum(a.S) {
+		return true
+	}
+	if n, ok := x.boundOf[a.S]; ok && x.freshRefs[b.S] && n <= allocNum(b.S) {
+		return true
+	}
+	return false
+}
+
+// outerSelect is (select a idx) for a heap class of arity >= 1, looking through the stores made on this path
+// as long as the outer index is syntactically equal (hit) or known to be a different object (miss).
+func (x *Exec) outerSelect(a, idx Term) Term {
+	cur := a
+	for {
+		info, ok := x.stores[cur.S]
+		if !ok {
+			break
+		}
+		if info.idx[0].S == idx.S {
+			if len(info.idx) == 1 {
+				return info.val
+			}
+			// element store: the inner array is the previous inner array with one cell updated
+			return mkStore(x.outerSelect(info.prev, idx), info.idx[1], info.val)
+		}
+		if x.distinctRefs(info.idx[0], idx) {
+			cur = info.prev
+			continue
+		}
+		break
+	}
+	return mkSelect(cur, idx)
+}
+
+// setClassStore: class := store(a, idx, inner), remembered for read-over-write.
+func (x *Exec) setClassStore(st *State, class string, a, idx, inner Term) {
+	x.setClass(st, class, mkStore(a, idx, inner))
+	x.stores[st.heap[class].S] = storeInfo{prev: a, idx: []Term{idx}, val: inner}
 }
